@@ -1,4 +1,6 @@
 import Pyunicorn.Lemmas.Access
+import Pyunicorn.Lemmas.WhileSafe
+import Pyunicorn.Generated.StructC20
 /-!
 # C20 — compiled kernels never touch memory outside their arrays
 
@@ -170,14 +172,6 @@ theorem tmi_in_bounds (N T nb : Nat) (sO sS : Nat → Nat → Int)
     · intro l hl m hm
       inb_auto
 
-private theorem truncInt_bounds {r : Rat} {nb : Int} (h0 : 0 ≤ r) (h1 : r < (nb : Rat)) :
-    0 ≤ truncInt r ∧ truncInt r < nb := by
-  unfold truncInt
-  rw [if_pos h0]
-  constructor
-  · exact Rat.le_floor_iff.mpr (by simpa using h0)
-  · exact Rat.floor_lt_iff.mpr h1
-
 /-- bin numbers: for `n_bins ≥ 1`, any sample (NaN included) whose rescaled
 value is not negative gets a symbol in `[0, n_bins)` -/
 theorem symbol_in_range (s m x : Option Rat) (nb : Int) (hnb : 1 ≤ nb)
@@ -201,6 +195,49 @@ theorem symbol_in_range (s m x : Option Rat) (nb : Int) (hnb : 1 ≤ nb)
 
 example : symbol (some 1) (some 0) 4 (some (1/2)) = 2 ∧ symbol (some 1) (some 0) 4 (some 1) = 3
     ∧ symbol (some 1) (some 0) 4 none = 3 := by decide +kernel
+
+/-- the same with rounding after every floating-point operation.  For every
+rounding `rnd` that is monotone and maps 0 to 0 (every IEEE rounding mode is),
+every `scaling ≥ 0` and every sample `x ≥ range_min`, the symbol is **not
+negative** — no hypothesis about the format is left for this half.  The upper half
+needs that the rounded product of a representable `r < 1` with `n_bins` stays
+below `n_bins` (`hlt`; for binary64 and `n_bins < 2^31` this holds because
+`r ≤ 1 - 2^-53` puts `r·n_bins` below the midpoint between `n_bins` and its
+predecessor, and in `_mutual_information` the product of a float with an `int` is
+exact in double) — this hypothesis is *not* proved here (partial); the oracle
+stream drives `rescaled = 1 - 2^-53` through the real kernels. -/
+theorem symbolRnd_in_range_partial (rnd : Rat → Rat) (hmono : ∀ x y, x ≤ y → rnd x ≤ rnd y)
+    (h0 : rnd 0 = 0) (hidem : ∀ x, rnd (rnd x) = rnd x) (s m v : Rat) (nb : Int)
+    (hs : 0 ≤ s) (hv : m ≤ v) (hnb : 1 ≤ nb)
+    (hlt : ∀ r, 0 ≤ r → r < 1 → rnd r = r → rnd (r * (nb : Rat)) < (nb : Rat)) :
+    0 ≤ symbolRnd rnd s m nb v ∧ symbolRnd rnd s m nb v < nb := by
+  have hnbq : (0 : Rat) ≤ (nb : Rat) := by exact_mod_cast (by omega : (0:Int) ≤ nb)
+  have h1 : 0 ≤ rnd (v - m) := by
+    have := hmono 0 (v - m) (by grind)
+    rwa [h0] at this
+  have h2 : 0 ≤ rnd (s * rnd (v - m)) := by
+    have := hmono 0 (s * rnd (v - m)) (Rat.mul_nonneg hs h1)
+    rwa [h0] at this
+  unfold symbolRnd
+  simp only
+  split
+  · rename_i hr
+    have h3 : 0 ≤ rnd (rnd (s * rnd (v - m)) * (nb : Rat)) := by
+      have := hmono 0 _ (Rat.mul_nonneg h2 hnbq)
+      rwa [h0] at this
+    exact truncInt_bounds h3 (hlt _ h2 hr (hidem _))
+  · omega
+
+/-- exact arithmetic is an instance (so the hypotheses are satisfiable), and there
+`symbolRnd` is `symbol` -/
+example : symbolRnd id 1 0 4 (1/2) = 2 ∧ symbol (some 1) (some 0) 4 (some (1/2)) = 2 := by
+  decide +kernel
+example : ∀ r : Rat, 0 ≤ r → r < 1 → id r = r → id (r * ((4 : Int) : Rat)) < ((4 : Int) : Rat) := by
+  intro r _ h _
+  show r * ((4 : Int) : Rat) < ((4 : Int) : Rat)
+  have : r * ((4 : Int) : Rat) < 1 * ((4 : Int) : Rat) :=
+    Rat.mul_lt_mul_of_pos_right h (by decide)
+  simpa using this
 
 /-- with `scaling = 1/(max - min)` and `range_min = min` no sample of the data
 has a negative rescaled value -/
@@ -227,7 +264,13 @@ theorem tmiCall_rejects_or_safe (N T N2 T2 : Nat) (nb : Int) (dO dS : Data) :
   obtain ⟨rfl, rfl⟩ := Prod.mk.inj hs
   split
   · simp
+  rename_i hbig
+  split
+  · simp
   have hnb1 : 1 ≤ nb := by omega
+  have hb32 : nb ≤ (2 : Int) ^ (32 - 1) := by
+    have : (2 : Int) ^ (32 - 1) = (2 : Int) ^ 31 := by decide
+    omega
   have hcast : ((nb.toNat : Nat) : Int) = nb := Int.toNat_of_nonneg (by omega)
   simp only
   split
@@ -242,22 +285,30 @@ theorem tmiCall_rejects_or_safe (N T N2 T2 : Nat) (nb : Int) (dO dS : Data) :
       obtain ⟨v', hv', hvb⟩ := optMax_ge _ b hmax _ hx
       cases hv'
       have hab : a < b := by grind
-      have key : ∀ (d : Data), (∀ y ∈ d.flat, y ∈ dO.flat ++ dS.flat) → ∀ i k,
-          0 ≤ symbol (some (1 / (b - a))) (some a) nb (d.at i k)
-          ∧ symbol (some (1 / (b - a))) (some a) nb (d.at i k) < ((nb.toNat : Nat) : Int) := by
-        intro d hd i k
-        rw [hcast]
-        apply symbol_in_range _ _ _ _ hnb1
-        intro sv mv w hsv hmv hw
+      -- no rescaled value is negative
+      have hpos : ∀ (d : Data), (∀ y ∈ d.flat, y ∈ dO.flat ++ dS.flat) → ∀ i k sv mv w,
+          (some (1 / (b - a)) : Option Rat) = some sv → (some a : Option Rat) = some mv →
+          d.at i k = some w → 0 ≤ sv * (w - mv) := by
+        intro d hd i k sv mv w hsv hmv hw
         cases hsv; cases hmv
         have hmem := hd _ (Data.at_mem_flat d i k w hw)
         obtain ⟨w', hw', haw⟩ := optMin_le _ a hmin _ hmem
         cases hw'
         exact rescaled_nonneg a b w hab haw
+      have key : ∀ (d : Data), (∀ y ∈ d.flat, y ∈ dO.flat ++ dS.flat) → ∀ i k,
+          0 ≤ symbol (some (1 / (b - a))) (some a) nb (d.at i k)
+          ∧ symbol (some (1 / (b - a))) (some a) nb (d.at i k) < ((nb.toNat : Nat) : Int) := by
+        intro d hd i k
+        rw [hcast]
+        exact symbol_in_range _ _ _ _ hnb1 (fun sv mv w h1 h2 h3 => hpos d hd i k sv mv w h1 h2 h3)
+      have inO : ∀ y ∈ dO.flat, y ∈ dO.flat ++ dS.flat := fun y hy => List.mem_append_left _ hy
+      have inS : ∀ y ∈ dS.flat, y ∈ dO.flat ++ dS.flat := fun y hy => List.mem_append_right _ hy
       rw [hmin]
+      rw [castsOK_of_pos (d := dO.at) hnb1 hb32 (hpos dO inO),
+          castsOK_of_pos (d := dS.at) hnb1 hb32 (hpos dS inS)]
+      simp only [Bool.and_self, if_true]
       rw [verdictOf_ne_oob (tmi_in_bounds N2 T2 nb.toNat _ _
-        (fun i k _ _ => key dO (fun y hy => List.mem_append_left _ hy) i k)
-        (fun i k _ _ => key dS (fun y hy => List.mem_append_right _ hy) i k))]
+        (fun i k _ _ => key dO inO i k) (fun i k _ _ => key dS inS i k))]
       simp
   · have hr : 0 ≤ nb - 1 ∧ nb - 1 < ((nb.toNat : Nat) : Int) := by omega
     rw [verdictOf_ne_oob (tmi_in_bounds N2 T2 nb.toNat _ _
@@ -266,6 +317,15 @@ theorem tmiCall_rejects_or_safe (N T N2 T2 : Nat) (nb : Int) (dO dS : Data) :
 
 example : tmiCall 1 2 1 2 2 [[some 0, some 1]] [[some 1, none]] = .safe := by decide +kernel
 example : tmiCall 1 2 1 2 0 [[some 0, some 1]] [[some 1, none]] = .raise := by decide +kernel
+example : tmiCall 1 2 1 2 (2 ^ 31) [[some 0, some 1]] [[some 1, none]] = .raise := by decide +kernel
+
+/-- a kernel that converts to `int` first and clamps afterwards
+(`sym = (int)(rescaled * n_bins); if (sym >= n_bins) sym = n_bins - 1;`) performs an
+undefined conversion as soon as one sample is NaN — with the branch on
+`rescaled < 1.0` first (the code as it is) the same call is safe -/
+theorem tmiCallConvertFirst_undefined_witness :
+    tmiCallConvertFirst 1 2 2 [[some 0, some 1]] [[some 1, none]] = .oob
+    ∧ tmiCall 1 2 1 2 2 [[some 0, some 1]] [[some 1, none]] = .safe := by decide +kernel
 
 /-- the pinned wrapper: `n_bins = 0`, and a smaller surrogate array -/
 theorem tmiCallPinned_oob_witness :
@@ -287,12 +347,60 @@ theorem miCall_rejects_or_safe (N T : Nat) (nb : Int) (zdiv : Bool) (scaling rmi
   · simp
   split
   · simp
+  rename_i hbig
   split
   · simp
+  split
+  · simp
+  have hb64 : nb ≤ (2 : Int) ^ (64 - 1) := by
+    have : (2 : Int) ^ 31 ≤ (2 : Int) ^ (64 - 1) := by decide
+    omega
+  rw [castsOK_of_pos (d := d.at) hnb hb64 hpos]
+  simp only [if_true]
   rw [verdictOf_ne_oob (mi_in_bounds N T nb.toNat _ (fun i k _ _ => by
     rw [hcast]
     exact symbol_in_range _ _ _ _ hnb (fun sv mv v h1 h2 h3 => hpos i k sv mv v h1 h2 h3)))]
   simp
+
+/-- `MutualInfoClimateNetwork._cython_calculate_mutual_information` from the
+normalised float64 array down to the kernel is safe or raises — for every array
+(NaN included), every conversion double → float that is monotone (rounding to
+nearest is), every non-negative (or NaN / infinite) `float scaling` and every
+`n_bins ≥ 1` (the public path fixes 32).  This discharges the hypothesis of
+`miCall_rejects_or_safe` from what the wrapper computes: `range_min` is the
+minimum of the very array whose samples reach the kernel, and both pass through
+the same monotone conversion, so no rescaled value is negative. -/
+theorem miWrapperCall_rejects_or_safe (rnd : Rat → Rat) (hmono : ∀ x y, x ≤ y → rnd x ≤ rnd y)
+    (N T : Nat) (nb : Int) (hnb : 1 ≤ nb) (sc : Option Rat) (hsc : ∀ s, sc = some s → 0 ≤ s)
+    (a : Data) : miWrapperCall rnd N T nb sc a ≠ .oob := by
+  unfold miWrapperCall
+  apply miCall_rejects_or_safe _ _ _ _ _ _ _ hnb
+  intro i k sv mv v hs hm hv
+  rw [Data.at_map a (fun x => x.map rnd) rfl] at hv
+  cases hmin : optMin a.flat with
+  | none => simp [hmin] at hm
+  | some mn =>
+    cases hmax : optMax a.flat with
+    | none => simp [hmin, hmax] at hs
+    | some mx =>
+      simp only [hmin, hmax] at hs
+      simp only [hmin, Option.map_some, Option.some.injEq] at hm
+      cases hw : a.at i k with
+      | none => simp [hw] at hv
+      | some w =>
+        simp only [hw, Option.map_some, Option.some.injEq] at hv
+        obtain ⟨w', hw', hle⟩ := optMin_le _ mn hmin _ (Data.at_mem_flat a i k w hw)
+        cases hw'
+        subst hm; subst hv
+        have h1 : 0 ≤ rnd w - rnd mn := by
+          have := hmono mn w hle
+          grind
+        exact Rat.mul_nonneg (hsc sv hs) h1
+
+example : miWrapperCall id 2 2 32 (some (1/2)) [[some 0, some 2], [some 1, some 2]] = .safe := by
+  decide +kernel
+example : miWrapperCall id 2 2 32 (some 1) [[some 1, some 1], [some 1, some 1]] = .raise := by
+  decide +kernel
 
 /-! ## current-flow betweenness -/
 
@@ -333,7 +441,11 @@ theorem vcfb_in_bounds (N : Nat) (i : Nat) (hi : i < N) :
 
 example : vcfbTrace 3 1 ≠ [] := by decide
 
-theorem vcfbCall_rejects_or_safe (N : Nat) (i : Int) : vcfbCall N i ≠ .oob := by
+/-- `ResNetwork.vertex_current_flow_betweenness(i)`: safe or raises for every node
+index (any integer) and whatever the size `Na` of the admittance / R matrices the
+object holds (they go stale when `Network.adjacency` is reassigned with another
+number of nodes) -/
+theorem vcfbCall_rejects_or_safe (N : Nat) (i : Int) (Na : Nat) : vcfbCall N i Na ≠ .oob := by
   unfold vcfbCall
   split
   · simp
@@ -341,14 +453,40 @@ theorem vcfbCall_rejects_or_safe (N : Nat) (i : Int) : vcfbCall N i ≠ .oob := 
     have h0 : 0 ≤ i := by omega
     obtain ⟨k, rfl⟩ := Int.eq_ofNat_of_zero_le h0
     have hk : k < N := by omega
-    rw [verdictOf_ne_oob (vcfb_in_bounds N k hk)]; simp
+    split
+    · simp
+    · rename_i hNa
+      have : Na = N := by simpa using hNa
+      subst this
+      show verdictOf (cfbSizes Na) (vcfbTrace Na k) ≠ .oob
+      rw [verdictOf_ne_oob (vcfb_in_bounds Na k hk)]; simp
 
-example : vcfbCall 3 1 = .safe := by decide
-example : vcfbCall 3 3 = .raise := by decide
+example : vcfbCall 3 1 3 = .safe := by decide
+example : vcfbCall 3 3 3 = .raise := by decide
+example : vcfbCall 3 1 2 = .raise := by decide
+
+theorem ecfbCall_rejects_or_safe (N Na : Nat) : ecfbCall N Na ≠ .oob := by
+  unfold ecfbCall
+  split
+  · simp
+  · rename_i hNa
+    have : Na = N := by simpa using hNa
+    subst this
+    show verdictOf (cfbSizes Na) (ecfbTrace Na) ≠ .oob
+    rw [verdictOf_ne_oob (ecfb_in_bounds Na)]; simp
+
+example : ecfbCall 3 3 = .safe := by decide
+example : ecfbCall 3 2 = .raise := by decide
 
 /-- the pinned method hands any node index to the C routine -/
 theorem vcfbCallPinned_oob_witness :
     vcfbCallPinned 3 3 = .oob ∧ vcfbCallPinned 3 (-1) = .oob := by decide
+
+/-- before the shape test in the Cython wrappers (round 2): after
+`net.adjacency = <4×4>` on an object holding 2×2 matrices, both methods read
+outside the held arrays -/
+theorem cfbCallStale_oob_witness :
+    vcfbCallStale 4 3 2 = .oob ∧ ecfbCallStale 4 2 = .oob := by decide
 
 end Pyunicorn.Access
 
@@ -411,6 +549,24 @@ theorem visIndices_lt (cond : Nat → Nat → Nat → Bool) (N : Nat) :
 
 example : visIndices (fun _ _ _ => true) 4 ≠ [] := by decide
 
+/-- `_set_adaptive_neighborhood_size` on well-formed arguments (an `n × n`
+recurrence matrix, neighbour table and processing order holding state numbers
+`< n` — what `RecurrencePlot.set_adaptive_neighborhood_size` passes) presents no
+index outside a buffer: for every size `a`, every `n_time`, every prefilled
+matrix it returns a matrix (no IndexError) of the same shape.  The kernel is
+therefore safe on the public path even without Cython's bounds checks. -/
+theorem adaptive_valid_ok (n nT a : Nat) (sn : IMat) (order : List Int) (recur : IMat)
+    (h : tablesOK n nT sn order recur = true) :
+    ∃ r', adaptive nT a sn order recur = some r' ∧ Square n r' := by
+  obtain ⟨hr, hs, ho⟩ := tablesOK_sound h
+  exact outer_some hs ho (List.range a) recur hr
+
+example : tablesOK 3 3 [[0, 1, 2], [1, 0, 2], [2, 1, 0]] [2, 0, 1] [[0,0,1],[0,0,0],[1,0,0]] = true := by
+  decide
+/-- an entry of the neighbour table outside `[0, n)` is answered by IndexError -/
+example : tablesOK 2 2 [[0, 2], [1, 0]] [0, 1] [[0, 0], [0, 0]] = false
+    ∧ adaptive 2 1 [[0, 2], [1, 0]] [0, 1] [[0, 0], [0, 0]] = none := by decide
+
 /-- dense neighbourhoods: the scan stops at `k = n_time` without reading
 `sorted_neighbors[l, n_time]` and no link is added (the pinned kernel raised IndexError here) -/
 example : adaptive 2 2 [[0, 1], [1, 0]] [0, 1] [[0, 0], [0, 0]] = some [[0, 1], [1, 0]] := by decide
@@ -418,3 +574,237 @@ example : adaptive 3 1 [[0, 1, 2], [1, 0, 2], [2, 1, 0]] [0, 1, 2] [[0,0,0],[0,0
     = some [[0, 1, 1], [1, 0, 1], [1, 1, 0]] := by decide
 
 end Pyunicorn.WhileKernels
+
+/-! # Statements about the index arithmetic and allocation sizes *as regenerated from
+the current source* by `translate/gen_C20.py`
+
+`Generated/StructC20.lean` lists, for each raw-pointer C routine, every array
+subscript and every pointer formed from an array parameter by closed-form
+arithmetic (with the enclosing `for` ranges and the C integer type the
+expression is evaluated in), and for each Cython wrapper the arrays it
+allocates, the casts it applies and the parameter types of the C function.
+The theorems below hold for all sizes; they stop compiling when the source
+changes a stride, a loop bound, an allocation or a pointee type. -/
+namespace Pyunicorn.Access
+open Pyunicorn.Generated.StructC20
+
+/-- a site is fine for an array of `cnt` elements: a subscript lies in `[0, cnt)`,
+a formed pointer in `[0, cnt]` (one past the end at most) -/
+def siteFine (s : Site) (cnt : Int) : Prop :=
+  0 ≤ s.idx ∧ (if s.kind = 0 then s.idx < cnt else s.idx ≤ cnt)
+
+/-- no integer sub-expression of the site leaves the range of its C type -/
+def siteFits (s : Site) : Prop :=
+  ∀ v ∈ s.subs, -((2 : Int) ^ (s.bits - 1)) ≤ v ∧ v < (2 : Int) ^ (s.bits - 1)
+
+/-- 64-bit sites: no sub-expression exceeds the element count of its array (so `long`
+arithmetic cannot overflow for any array that fits in memory) -/
+def siteFits' (s : Site) (c1 c2 : Int) : Prop := ∀ v ∈ s.subs, 0 ≤ v ∧ (v ≤ c1 ∨ v ≤ c2)
+
+/-- closes the per-site goals; the row facts (`row2` instances, stated as
+implications) must be in the context -/
+macro "site_bounds" : tactic => `(tactic| (
+  intro g
+  simp only [siteFine, siteFits, List.forall_mem_cons, List.not_mem_nil, false_imp_iff,
+    implies_true, and_true, if_true, if_false, Nat.one_ne_zero, Nat.reduceSub] at *
+  all_goals omega))
+
+/-! ## `_spearman_corr` -/
+
+/-- element counts of the arrays of `_spearman_corr` for an `m × tmax` input
+(`spearmanSizes` is these counts times the element widths) -/
+def spearmanCnt (m tmax : Int) : String → Int
+  | "final_mask" => m * tmax
+  | "time_series_ranked" => m * tmax
+  | "spearman_rho" => m * m
+  | "rankedi" | "rankedj" | "normalizedi" | "normalizedj" => tmax
+  | _ => 0
+
+theorem spearmanSizes_eq (m tmax : Nat) :
+    (spearmanSizes m tmax).map (fun (b : Nat) => (b : Int)) =
+      [spearmanCnt m tmax "final_mask" * 1, spearmanCnt m tmax "time_series_ranked" * 4,
+       spearmanCnt m tmax "spearman_rho" * 4, spearmanCnt m tmax "rankedi" * 8,
+       spearmanCnt m tmax "rankedj" * 8, spearmanCnt m tmax "normalizedi" * 8,
+       spearmanCnt m tmax "normalizedj" * 8] := by
+  simp [spearmanSizes, spearmanCnt]
+
+/-- every subscript in the current text of `_spearman_corr` is inside its array,
+for all `m`, `tmax` and all values of the loop variables in their ranges -/
+theorem spearman_sites_fine (m tmax i j t : Int) :
+    ∀ s ∈ spearman_sites m tmax i j t, s.guard → siteFine s (spearmanCnt m tmax s.arr) := by
+  have r1 := @row2 i m tmax; have r2 := @row2 j m tmax
+  have r3 := @row2 i m m; have r4 := @row2 j m m
+  simp only [spearman_sites, List.forall_mem_cons, List.not_mem_nil, false_imp_iff,
+    implies_true, and_true, spearmanCnt]
+  (with_reducible and_intros) <;> site_bounds
+
+/-- no `int` index expression of `_spearman_corr` overflows, provided the element
+counts `m·tmax` and `m·m` are below 2^31 -/
+theorem spearman_sites_fit (m tmax i j t : Int) (h1 : m * tmax < 2 ^ 31) (h2 : m * m < 2 ^ 31) :
+    ∀ s ∈ spearman_sites m tmax i j t, s.guard → siteFits s := by
+  have r1 := @row2 i m tmax; have r2 := @row2 j m tmax
+  have r3 := @row2 i m m; have r4 := @row2 j m m
+  simp only [spearman_sites, List.forall_mem_cons, List.not_mem_nil, false_imp_iff,
+    implies_true, and_true]
+  (with_reducible and_intros) <;> site_bounds
+
+example : (spearman_sites 2 3 1 1 2).length = 24 := by decide
+
+
+/-! ## `_test_pearson_correlation_fast` -/
+
+def pearsonCnt (N n_time : Int) : String → Int
+  | "original_data" => N * n_time
+  | "surrogates" => N * n_time
+  | "correlation" => N * N
+  | _ => 0
+/-- number of elements walked from a formed row pointer (`p++` in the inner loop) -/
+def pearsonRow (N n_time : Int) : String → Int
+  | "correlation" => N
+  | "original_data" => n_time
+  | "surrogates" => n_time
+  | _ => 0
+
+/-- every row pointer formed in the current text of `_test_pearson_correlation_fast`
+points into its array and the whole row walked from it lies inside -/
+theorem pearson_sites_fine (n_time N i j k : Int) (hT : 0 ≤ n_time) :
+    ∀ s ∈ pearson_sites n_time N i j k, s.guard →
+      siteFine s (pearsonCnt N n_time s.arr)
+      ∧ s.idx + pearsonRow N n_time s.arr ≤ pearsonCnt N n_time s.arr := by
+  have r1 := @row2 i N N; have r2 := @row2 i N n_time; have r3 := @row2 j N n_time
+  simp only [pearson_sites, List.forall_mem_cons, List.not_mem_nil, false_imp_iff,
+    implies_true, and_true, pearsonCnt, pearsonRow]
+  (with_reducible and_intros) <;> site_bounds
+
+theorem pearson_sites_fit (n_time N i j k : Int) (hT : 0 ≤ n_time)
+    (h1 : N * n_time < 2 ^ 31) (h2 : N * N < 2 ^ 31) :
+    ∀ s ∈ pearson_sites n_time N i j k, s.guard → siteFits s := by
+  have r1 := @row2 i N N; have r2 := @row2 i N n_time; have r3 := @row2 j N n_time
+  simp only [pearson_sites, List.forall_mem_cons, List.not_mem_nil, false_imp_iff,
+    implies_true, and_true]
+  (with_reducible and_intros) <;> site_bounds
+
+example : (pearson_sites 3 2 1 1 0).length = 3 := by decide
+
+/-! ## the mutual-information routines: closed-form pointer formations -/
+
+def tmiCnt (N n_bins : Int) : String → Int
+  | "mi" => N * N
+  | "hist2d" => n_bins * n_bins
+  | _ => 0
+
+theorem tmi_sites_fine (N n_time n_bins i k j l m : Int) :
+    ∀ s ∈ tmi_sites N n_time n_bins i k j l m, s.guard →
+      siteFine s (tmiCnt N n_bins s.arr) ∧ siteFits' s (N * N) (n_bins * n_bins) := by
+  have r1 := @row2 i N N; have r2 := @row2 l n_bins n_bins
+  simp only [tmi_sites, List.forall_mem_cons, List.not_mem_nil, false_imp_iff,
+    implies_true, and_true, tmiCnt, siteFits']
+  (with_reducible and_intros) <;> site_bounds
+
+/-- `p_mi2 = mi + i` in `_mutual_information` -/
+theorem mi_sites_fine (n_samples N n_bins i k j l m : Int) :
+    ∀ s ∈ mi_sites n_samples N n_bins i k j l m, s.guard → siteFine s (N * N) := by
+  have r1 := @row2 0 N N
+  simp only [mi_sites, List.forall_mem_cons, List.not_mem_nil, false_imp_iff,
+    implies_true, and_true]
+  site_bounds
+
+/-! ## current-flow betweenness -/
+
+def cfbCnt (N : Int) : String → Int
+  | "admittance" | "R" | "ECFB" => N * N
+  | _ => 0
+
+/-- every subscript in the current text of `_vertex_current_flow_betweenness_fast`
+is inside its `N × N` array for every node index `0 ≤ i < N` (what the method
+guarantees), and no `int` expression overflows when `N·N < 2^31` -/
+theorem vcfb_sites_fine (N i t s j : Int) (hi0 : 0 ≤ i) (hi : i < N) :
+    ∀ x ∈ vcfb_sites N i t s j, x.guard → siteFine x (cfbCnt N x.arr) := by
+  have r1 := @row2 i N N; have r2 := @row2 j N N
+  simp only [vcfb_sites, List.forall_mem_cons, List.not_mem_nil, false_imp_iff,
+    implies_true, and_true, cfbCnt]
+  (with_reducible and_intros) <;> site_bounds
+
+theorem vcfb_sites_fit (N i t s j : Int) (hi0 : 0 ≤ i) (hi : i < N) (h : N * N < 2 ^ 31) :
+    ∀ x ∈ vcfb_sites N i t s j, x.guard → siteFits x := by
+  have r1 := @row2 i N N; have r2 := @row2 j N N
+  simp only [vcfb_sites, List.forall_mem_cons, List.not_mem_nil, false_imp_iff,
+    implies_true, and_true]
+  (with_reducible and_intros) <;> site_bounds
+
+theorem ecfb_sites_fine (N i j t s : Int) :
+    ∀ x ∈ ecfb_sites N i j t s, x.guard → siteFine x (cfbCnt N x.arr) := by
+  have r1 := @row2 i N N; have r2 := @row2 j N N
+  simp only [ecfb_sites, List.forall_mem_cons, List.not_mem_nil, false_imp_iff,
+    implies_true, and_true, cfbCnt]
+  (with_reducible and_intros) <;> site_bounds
+
+theorem ecfb_sites_fit (N i j t s : Int) (h : N * N < 2 ^ 31) :
+    ∀ x ∈ ecfb_sites N i j t s, x.guard → siteFits x := by
+  have r1 := @row2 i N N; have r2 := @row2 j N N
+  simp only [ecfb_sites, List.forall_mem_cons, List.not_mem_nil, false_imp_iff,
+    implies_true, and_true]
+  (with_reducible and_intros) <;> site_bounds
+
+example : (vcfb_sites 3 1 2 0 1).length = 5 ∧ (ecfb_sites 3 1 2 1 0).length = 6 := by decide
+
+/-! ## the wrappers: allocations, casts and parameter types as they are in the source -/
+
+def lookupW (n : String) (l : List (String × Nat)) : Option Nat := (l.find? (·.1 == n)).map (·.2)
+
+/-- each array the wrapper allocates is handed over through a cast whose pointee
+is as wide as the array's dtype, and each typed buffer parameter likewise -/
+def castsAgree (allocs : List (String × Nat × Nat)) (bufs : List (String × Nat × Nat × Bool))
+    (ptrargs : List (String × Nat)) : Bool :=
+  allocs.all (fun a => lookupW a.1 ptrargs == some a.2.2)
+  && bufs.all (fun b => lookupW b.1 ptrargs == some b.2.1)
+  && ptrargs.all (fun p => allocs.any (·.1 == p.1) || bufs.any (·.1 == p.1))
+
+/-- in the current source: every pointer argument is cast to a pointee of the
+width of the array's dtype; the C functions declare pointees of the same widths
+in the same order (the pinned `int *final_mask` fails this); scalar arguments
+are passed in the order of the C parameters -/
+theorem wrappers_casts_agree :
+    castsAgree (mi_allocs 0 0 0) mi_bufparams mi_ptrargs = true
+    ∧ castsAgree (spearman_allocs 0 0) spearman_bufparams spearman_ptrargs = true
+    ∧ castsAgree (pearson_allocs 0 0) pearson_bufparams pearson_ptrargs = true
+    ∧ castsAgree (tmi_allocs 0 0 0) tmi_bufparams tmi_ptrargs = true
+    ∧ castsAgree (vcfb_allocs 0 0) vcfb_bufparams vcfb_ptrargs = true
+    ∧ castsAgree (ecfb_allocs 0) ecfb_bufparams ecfb_ptrargs = true
+    ∧ mi_ptrargs.map (·.2) = mi_cptrs.map (·.2)
+    ∧ spearman_ptrargs.map (·.2) = spearman_cptrs.map (·.2)
+    ∧ pearson_ptrargs.map (·.2) = pearson_cptrs.map (·.2)
+    ∧ tmi_ptrargs.map (·.2) = tmi_cptrs.map (·.2)
+    ∧ vcfb_ptrargs.map (·.2) = vcfb_cptrs.map (·.2)
+    ∧ ecfb_ptrargs.map (·.2) = ecfb_cptrs.map (·.2)
+    ∧ mi_scalarargs = mi_cscalars ∧ spearman_scalarargs = spearman_cscalars
+    ∧ pearson_scalarargs = pearson_cscalars ∧ tmi_scalarargs = tmi_cscalars
+    ∧ vcfb_scalarargs = vcfb_cscalars ∧ ecfb_scalarargs = ecfb_cscalars := by decide
+
+def allocBytes (l : List (String × Nat × Nat)) : List Nat := l.map fun a => a.2.1 * a.2.2
+
+/-- the byte sizes the access-trace theorems are stated for are the ones the
+current wrappers allocate (caller arrays first, as `to_cy` copies them) -/
+theorem model_sizes_are_allocations (N T nb m tmax : Nat) :
+    miSizes N T nb = [N * T * 4] ++ allocBytes (mi_allocs T N nb)
+    ∧ spearmanSizes m tmax = [m * tmax * 1, m * tmax * 4] ++ allocBytes (spearman_allocs m tmax)
+        ++ [tmax * 8, tmax * 8, tmax * 8, tmax * 8]
+    ∧ pearsonSizes N T N T = [N * T * 8, N * T * 8] ++ allocBytes (pearson_allocs N T)
+    ∧ tmiSizes N T N T nb = [N * T * 8, N * T * 8] ++ allocBytes (tmi_allocs N T nb)
+    ∧ cfbSizes N = [N * N * 4, N * N * 4] ++ allocBytes (ecfb_allocs N) := by
+  refine ⟨rfl, rfl, rfl, rfl, rfl⟩
+
+/-! ## census -/
+
+/-- the typed-buffer kernels are compiled with bounds checks and without
+wrap-around, no function overrides that locally, and the only functions of the
+four `numerics.pyx` that use raw pointers are the six wrappers modelled above -/
+theorem raw_pointer_census :
+    cy_boundscheck = true ∧ cy_wraparound = false ∧ pyx_overrides = []
+    ∧ rawptr_functions =
+      [("climate", "mutual_information", 5), ("climate", "spearman_corr", 3),
+       ("core", "_edge_current_flow_betweenness", 3), ("core", "_vertex_current_flow_betweenness", 2),
+       ("timeseries", "_test_mutual_information", 8), ("timeseries", "_test_pearson_correlation", 3)] := by
+  decide
+
+end Pyunicorn.Access
